@@ -28,6 +28,31 @@ SAFE_NAMES = {
 }
 
 
+def _error_names(fn):
+    """view of a report function in which the components of an error record carry fixed names, however the code
+    binds them: for X in <node>.errors / .get_error_list(..): X[0] -> err_cde, X[1] -> err_str (also for a tuple
+    target, whatever its element names are)"""
+    table = {}
+    for n in ast.walk(fn):
+        if isinstance(n, (ast.For, ast.comprehension)):
+            it = n.iter
+            is_err = (path_of(it) or '').endswith('.errors') or (isinstance(it, ast.Call) and A.call_target(it)[1] == 'get_error_list')
+            if not is_err:
+                continue
+            if isinstance(n.target, ast.Name):
+                table['%s[0]' % n.target.id] = 'err_cde'
+                table['%s[1]' % n.target.id] = 'err_str'
+            elif isinstance(n.target, ast.Tuple):
+                for x, nm in zip(n.target.elts, ('err_cde', 'err_str', 'bad_value')):
+                    if isinstance(x, ast.Name) and x.id != nm:
+                        table[x.id] = nm
+    if not table:
+        fn._mod = getattr(fn, '_mod', None)
+        return fn
+    v, _found = A.named_view(fn, table)
+    return v
+
+
 def _safe_attrs(ctx):
     """self attributes of error_html whose every assignment is a constant or an escape_html_chars(...) call"""
     cls = ctx.cls('error_html', 'error_html')
@@ -95,6 +120,8 @@ def r1_escaping(ctx):
     for f in cls.body:
         if not isinstance(f, ast.FunctionDef):
             continue
+        f._mod = ctx.mod('error_html')
+        f = _error_names(f)
         for c in A.calls_in(f):
             if A.call_target(c) == ('self.fd', 'write') and c.args:
                 n_w += 1
@@ -229,7 +256,7 @@ def _guarded_by(g, node, name):
 
 
 def r4_every_error(ctx):
-    f = ctx.func('error_html', 'error_html.gen_seg')
+    f = _error_names(ctx.func('error_html', 'error_html.gen_seg'))
     tests = []
     for n in ast.walk(f):
         if isinstance(n, ast.If) and isinstance(n.test, ast.Compare) and path_of(n.test.left) == 'err_cde' \
@@ -279,8 +306,8 @@ def r4_every_error(ctx):
 
 
 RULES = [
-    Rule('C19.R1', 'every interpolated piece of every HTML write is constant, integer, map text or escaped', r1_escaping, floor=20),
-    Rule('C19.R2', 'escape chain: & first, < and > covered', r2_escape_chain, floor=5),
-    Rule('C19.R3', 'header before, one gen_seg per iteration, footer after (CFG)', r3_every_segment, floor=6),
-    Rule('C19.R4', 'error code filters partition the codes; all nodes, element errors and positions rendered', r4_every_error, floor=8),
+    Rule('C19.R1', 'every interpolated piece of every HTML write is constant, integer, map text or escaped', r1_escaping, floor=15),
+    Rule('C19.R2', 'escape chain: & first, < and > covered', r2_escape_chain, floor=3),
+    Rule('C19.R3', 'header before, one gen_seg per iteration, footer after (CFG)', r3_every_segment, floor=4),
+    Rule('C19.R4', 'error code filters partition the codes; all nodes, element errors and positions rendered', r4_every_error, floor=6),
 ]
